@@ -145,6 +145,9 @@ def decodeFile (j : Json) : Except String (APath × FileContent) := do
       pure ({ key := dd.key, prim := dd.prim, arity := dd.arity, pos := pos } : ExtDef))
     pure (p, .ext ds)
   | "bad" => pure (p, .badExt)
+  | "nottext" => do
+    let pos ← getPos j "pos"
+    pure (p, .notText pos)
   | k => throw s!"unknown file kind {k}"
 
 def diagJ (d : Diag) : Json :=
